@@ -210,6 +210,9 @@ struct Exec {
             fail = "no connection / stream header";
             return false;
         }
+        // no Nagle / delayed-ACK stalls between the many small writes (affects timing only)
+        peer.sock->setSocketOption(QAbstractSocket::LowDelayOption, 1);
+        c->stream()->socket()->setSocketOption(QAbstractSocket::LowDelayOption, 1);
         from = log.size();
         if (!serverWrite(header(2 * connNo - 1, "<mechanisms xmlns='urn:ietf:params:xml:ns:xmpp-sasl'><mechanism>PLAIN</mechanism></mechanisms>")) ||
             !logged("<auth", from)) {
